@@ -19,7 +19,7 @@ RULE = ("cases: random recipes with variables fixed by leaf bounds (k,k), by pre
         "and the result differs from the input (threshold or children changed); distinct by canonical shape digest")
 BUDGET = {"quick": (8, 200, 60), "thorough": (16, 3000, 900)}
 MANDATORY = ["judged:same-meaning", "judged:no-constant-left", "contract:AtLeast.reduce", "count:result-is-constant",
-             "count:result-is-compound", "count:after-assume"]
+             "count:result-is-compound", "count:after-assume", "count:swap-fixed-pairs", "count:twin-runs"]
 
 _n = 0
 
@@ -94,10 +94,20 @@ def gen_case(rng, tier, ctx, i):
         nodes = [n for n in refmodel.recipe_nodes(rec)[1:] if n.get("id") and n["k"] not in ("var", "str", "ref", "Not")]
         for n in rng.sample(nodes, min(len(nodes), rng.randint(1, 2))):
             n["fix"] = rng.choice([0, 1])
-    return {"recipe": rec, "seed": rng.getrandbits(32), "after_assume": rng.random() < 0.5}
+    swap = rng.random() < 0.2
+    if swap:
+        lv = [n for n in refmodel.recipe_nodes(rec) if n["k"] == "var"]
+        ids = sorted({n["id"] for n in lv})
+        if len(ids) >= 2:
+            b = rng.choice([[0, 2], [1, 3], [-1, 1], [0, 4]])
+            for i in rng.sample(ids, 2):
+                for n in lv:
+                    if n["id"] == i:
+                        n["b"] = list(b)
+    return common.with_twins(rng, {"recipe": rec, "seed": rng.getrandbits(32), "after_assume": rng.random() < 0.5, "swap_fixed": swap})
 
 
-def run_case(case, ctx):
+def _run_one(case, ctx):
     rng = random.Random(case["seed"])
     m = recipes.fresh(case["recipe"])
     if adapters.is_leaf(m):
@@ -105,6 +115,23 @@ def run_case(case, ctx):
     graph, top, info = common.domain(m, allow_prefixed=True)
     if graph[top]["b"][0] == graph[top]["b"][1]:
         raise monitor.OutOfScope()
+    if case.get("swap_fixed"):
+        # the same model with two different leaves fixed at the same constant (mid-point of equal bounds): the two assumed
+        # models have the same ids, and their leaf bounds collide under the library's hashes ((lo,hi) vs (mid,mid))
+        cands = [l for l in refmodel.leaves(graph, top) if (graph[l]["b"][1] - graph[l]["b"][0]) % 2 == 0 and graph[l]["b"][1] > graph[l]["b"][0]]
+        groups = {}
+        for l in cands:
+            groups.setdefault(tuple(graph[l]["b"]), []).append(l)
+        pair = next((g for g in groups.values() if len(g) >= 2), None)
+        if pair:
+            ctx.count("count:swap-fixed-pairs")
+            for l in pair[:2]:
+                lo, hi = graph[l]["b"]
+                mm = recipes.fresh(case["recipe"])
+                am = ctx.call("assume", mm.assume, {l: (lo + hi) // 2})
+                if not adapters.is_leaf(am) and adapters.validated(am, need_no_prefixed=False) is not None:
+                    ctx.call("reduce", am.reduce)
+            return
     if case["after_assume"]:
         d = {}
         for lid in refmodel.leaves(graph, top):
@@ -125,3 +152,16 @@ def run_case(case, ctx):
         ctx.call("reduce", am.reduce)
     else:
         ctx.call("reduce", m.reduce)
+
+
+def run_case(case, ctx):
+    """the base recipe, then its hostile twins (same ids, bounds/thresholds that collide under the library's hashes)"""
+    for k, rec in enumerate(common.recipes_of(case)):
+        sub = dict(case, recipe=rec)
+        sub.pop("twins", None)
+        if k:
+            ctx.count("count:twin-runs")
+        try:
+            _run_one(sub, ctx)
+        except monitor.OutOfScope:
+            ctx.count("case:out_of_scope" if k == 0 else "twin:out_of_scope")
